@@ -20,8 +20,9 @@ RULE = (
     "position 1..r (also inside the header; kinds: id not a number, id outside the range, code not a choice, "
     "delimited only: a row with too few items) x header style {rows that look like data, column titles that the "
     "fields would reject} x validation limit in {None, 0..r+1} x observers {list(cutplace.rows(on_error='yield')), "
-    "cutplace.validate, applications.main with --until N (None: option omitted and also '--until -1')}; a fresh "
-    "Cid per run. Oracle (own arithmetic, no cutplace): rejection reported iff header < bad row number <= limit "
+    "cutplace.validate, both also with the CID named by the path of a CID file that is rewritten in place whenever "
+    "the header count changes, applications.main with --until N (None: option omitted and also '--until -1')}; a "
+    "fresh Cid per run; every CID restricts the allowed characters to printable ASCII and one kind of bad row breaks that. Oracle (own arithmetic, no cutplace): rejection reported iff header < bad row number <= limit "
     "(None = no limit, row numbers count header rows); rows() returns every data row after the header unchanged "
     "(also beyond the limit) with a DataError in place of the reported row; validate raises a DataError iff so; "
     "main exits 1 iff so, else 0 (thorough: r up to 8, and delimited/fixed data also given to the API as a path). "
@@ -48,8 +49,8 @@ EXHAUSTIVE_SCOPE = (
 )
 
 FORMATS = ("delimited", "fixed", "ods", "excel")
-KINDS = {"delimited": ("int", "range", "choice", "count"), "fixed": ("int", "range", "choice"),
-         "ods": ("int", "choice"), "excel": ("int", "choice")}
+KINDS = {"delimited": ("int", "range", "choice", "count", "char"), "fixed": ("int", "range", "choice", "char"),
+         "ods": ("int", "choice", "char"), "excel": ("int", "choice")}
 TITLES = {"delimited": ["id", "code"], "fixed": ["id ", "cd"], "ods": ["id", "code"], "excel": ["id", "code"]}
 SUFFIX = {"delimited": ".csv", "fixed": ".txt", "ods": ".ods", "excel": ".xlsx"}
 MAX_ROWS = 6
@@ -64,6 +65,8 @@ def cid_rows(fmt, header):
         rows.append(["D", "Encoding", "utf-8"])
     if fmt == "fixed":
         rows.append(["D", "Line delimiter", "LF"])
+    # printable ASCII only: bad rows of kind 'char' break this rule (and, as it happens, the rule of their field)
+    rows.append(["D", "Allowed characters", "32...126"])
     rows.append(["F", "id", "", "", "3" if fmt == "fixed" else "", "Integer", "100...899"])
     rows.append(["F", "code", "", "", "2" if fmt == "fixed" else "", "Choice", "aa,bb"])
     return rows
@@ -81,6 +84,8 @@ def bad_row(number, kind):
         row[0] = str(950 + number)
     elif kind == "choice":
         row[1] = "zz"
+    elif kind == "char":
+        row[1] = "a\xe9"
     elif kind == "count":
         row = row[:1]
     else:
@@ -219,8 +224,8 @@ def observe(sub, case, table, source, cid_path=None):
             return io.StringIO(source, newline="")
         return source
 
-    if observer in ("rows", "rows-path"):
-        cid = cidlib.load_cid(cid_rows(fmt, header))
+    if observer in ("rows", "rows-path", "rows-by-cid-file"):
+        cid = cid_path if observer == "rows-by-cid-file" else cidlib.load_cid(cid_rows(fmt, header))
         try:
             out = list(cutplace.rows(cid, stream(), on_error="yield", validate_until=limit))
         except Exception as error:
@@ -253,8 +258,8 @@ def observe(sub, case, table, source, cid_path=None):
                 _fail(sub, "C07|rows|row-changed|%s" % fmt, case,
                       "row %d is %r, expected %r (header %d, limit %r)" % (number, item, row, header, limit))
                 return
-    elif observer in ("validate", "validate-path"):
-        cid = cidlib.load_cid(cid_rows(fmt, header))
+    elif observer in ("validate", "validate-path", "validate-by-cid-file"):
+        cid = cid_path if observer == "validate-by-cid-file" else cidlib.load_cid(cid_rows(fmt, header))
         try:
             cutplace.validate(cid, stream(), validate_until=limit)
             raised = None
@@ -308,7 +313,7 @@ def limits_for(r):
 
 
 class _Files(object):
-    """Temporary files of one worker; CID files are written once per (format, header)."""
+    """Temporary files of one worker."""
 
     def __init__(self):
         self.dir = tempfile.mkdtemp(prefix="c07-")
@@ -316,12 +321,13 @@ class _Files(object):
         self._count = 0
 
     def cid_path(self, fmt, header):
-        key = (fmt, header)
-        if key not in self._cids:
-            path = os.path.join(self.dir, "cid_%s_%d.csv" % key)
+        """One CID file per format, as a user keeps it: rewritten in place whenever its content has to change (so the
+        same path names CIDs with different header counts in the course of a run)."""
+        path = os.path.join(self.dir, "cid_%s.csv" % fmt)
+        if self._cids.get(fmt) != header:
             write_cid(path, cid_rows(fmt, header))
-            self._cids[key] = path
-        return self._cids[key]
+            self._cids[fmt] = header
+        return path
 
     def data_path(self, fmt):
         self._count += 1
@@ -343,6 +349,9 @@ def check_table(sub, files, spec, classes, only=None, by_path=False):
     try:
         for limit in limits_for(r):
             observers = ["rows", "validate", "main"] + (["main-1"] if limit is None else [])
+            if text is not None:
+                # the CID named by its path instead of given as an object, as in the README
+                observers += ["rows-by-cid-file", "validate-by-cid-file"]
             if by_path and text is not None:
                 observers += ["rows-path", "validate-path"]
             for observer in observers:
@@ -351,7 +360,8 @@ def check_table(sub, files, spec, classes, only=None, by_path=False):
                 if only is not None and not only(case):
                     continue
                 local = Sub("x")
-                source = text if (text is not None and observer in ("rows", "validate")) else data_path
+                source = text if (text is not None and observer in ("rows", "validate", "rows-by-cid-file",
+                                                                     "validate-by-cid-file")) else data_path
                 observe(local, case, table, source, cid_path)
                 sub.merge(local)
                 sub.evaluations -= local.evaluations
@@ -642,6 +652,14 @@ def replay(sub, case):
                                         case["style"])
     files = _Files()
     try:
+        if case["observer"].endswith("-by-cid-file") and fmt in ("delimited", "fixed"):
+            # in the enumeration the CID file at this path declared other header counts before: repeat that history
+            for other in range(MAX_HEADER + 1):
+                if other != header:
+                    try:
+                        list(cutplace.rows(files.cid_path(fmt, other), io.StringIO("", newline="")))
+                    except Exception:
+                        pass
         wanted = (case["limit"], case["observer"])
         check_table(sub, files, (fmt, header, r, bad, kind, style), {},
                     only=lambda c: (c["limit"], c["observer"]) == wanted, by_path=True)
